@@ -18,19 +18,26 @@ theorem provision_rollback_sees_every_error :
     Gen.provisionErrorReturns.all (· == "covered") = true ∧
     Gen.provisionErrorReturns.length ≥ 3 := by decide
 
-/-- the ORDER facts StdApps.lean is built on, regenerated from caddy.go and modules/caddytls/tls.go on every run:
-    `load` — "started" is emitted after the start loop and BEFORE finishSettingUp, whose failure ends in
-    unsyncedStop of the new configuration; `endOuts` — "stopping", then the apps' Stop, then the modules' Cleanup;
-    `stop` — caddy.Stop cleans up BEFORE it empties currentCtx and TLS.Cleanup takes whatever tls app
-    caddy.ActiveContext() has for its successor UNLESS that is itself (`nextTLS.(*TLS) != t`, /repo 985d095 —
-    `Std.stopW`; dropping the check again changes this string and brings back `Std.stop`, the old code of
-    cert_cache_function_of_running_old_code_fails);
-    `validate` — run, cancel, defaults back; `cacheAdd` / `tlsCleanup` — every certificate that is cached is
-    remembered in t.loaded unconditionally (self-test C01-tls-untagged-certificates-not-tracked breaks this line) -/
+/-- the ORDER facts StdApps.lean is built on, regenerated from caddy.go and modules/caddytls/tls.go on every run
+    as event sequences of the CALL-INLINED bodies (tools/extract/c01stdapps.go: calls into unexported functions /
+    methods / closures of the package are replaced by the callee's events, so extract-function and inline-function
+    rewrites leave every list as it is; moving, dropping or adding an event does not):
+    `load` — provisioning, admin routers (failure: cancel, defaults back), the start loop with the stop of the started
+    siblings (failure: cancel, defaults back), "started" AFTER the start loop's failure exit and BEFORE
+    finishSettingUp, whose failure ends in unsyncedStop's events and defaults back; `endOuts` — "stopping", then the
+    apps' Stop, then the modules' Cleanup; `stopW` — caddy.Stop cleans up BEFORE it empties currentCtx, and TLS.Cleanup
+    takes whatever tls app caddy.ActiveContext() has for its successor UNLESS that is itself (`nextTLS.(*TLS) != t`,
+    /repo 985d095; dropping the check again changes this string and brings back `Std.stop`, the old code of
+    cert_cache_function_of_running_old_code_fails); `validate` — run, cancel, defaults back; `cacheAdd` / `tlsCleanup` —
+    every certificate that is cached is remembered in t.loaded unconditionally (self-tests
+    C01-tls-untagged-certificates-not-tracked and C01-started-event-before-start-loop-check each change one list) -/
 theorem std_apps_order_matches_source :
-    Gen.runPhaseOrder = ["provisionContext", "provisionAdminRouters", "Start", "emitEvent:started", "finishSettingUp", "unsyncedStop"] ∧
-    Gen.unsyncedStopOrder = ["emitEvent:stopping", "Stop", "cancelFunc"] ∧
-    Gen.stopOrder = ["unsyncedStop", "currentCtx=Context{}"] ∧
+    Gen.runPhaseOrder = ["provisionContext", "provisionAdminRouters", "cancelFunc", "restoreDefaultStorage", "restoreDefaultLogger",
+      "app.Start", "app.Stop", "cancelFunc", "restoreDefaultStorage", "restoreDefaultLogger",
+      "emitEvent:started", "finishSettingUp",
+      "emitEvent:stopping", "app.Stop", "cancelFunc", "restoreDefaultStorage", "restoreDefaultLogger"] ∧
+    Gen.unsyncedStopOrder = ["emitEvent:stopping", "app.Stop", "cancelFunc"] ∧
+    Gen.stopOrder = ["emitEvent:stopping", "app.Stop", "cancelFunc", "currentCtx=Context{}"] ∧
     Gen.validateOrder = ["run", "cancelFunc", "restoreDefaultStorage", "restoreDefaultLogger"] ∧
     Gen.tlsCleanupSuccessorLookup = "caddy.ActiveContext().AppIfConfigured(\"tls\")" ∧
     Gen.tlsCleanupSuccessorCond = "err==nil&&nextTLS!=nil&&nextTLS.(*TLS)!=t" ∧
